@@ -448,6 +448,18 @@ def _do_extract(res, repo_root, head, block, canary, tpl_path):
                 lp = body_open + loops[k - 1].end()
                 lb = rscan.find_body_open(masked, lp, '{')
                 t.insert(lb, '\n' + '\n'.join(d.payload) + '\n')
+            elif d.kind == 'loopstart':
+                # first thing inside the body of the k-th loop
+                k = int(d.arg)
+                masked = rscan.mask(t.s)
+                m = re.search(r'\bfn\s+(\w+)', masked)
+                body_open = rscan.find_body_open(masked, m.end(), '{')
+                loops = [mm for mm in re.finditer(r'\b(while|for|loop)\b', masked[body_open:])]
+                if k < 1 or k > len(loops):
+                    raise ExtractError("%s: %s has %d loops, overlay wants loop %d" % (file_rel, selector, len(loops), k))
+                lp = body_open + loops[k - 1].end()
+                lb = rscan.find_body_open(masked, lp, '{')
+                t.insert(lb + 1, '\n' + '\n'.join(d.payload) + '\n')
             elif d.kind == 'afterloop':
                 k = int(d.arg)
                 masked = rscan.mask(t.s)
